@@ -247,7 +247,7 @@ pub fn worker_main(prop: &str, tier: Tier, widx: u64, wcount: u64, out: &Path) -
                     let v = json!({
                         "property": prop, "scenario": scen, "tier": tier.as_str(), "index": idx, "seed": seed,
                         "clause": format!("{prop}.run_terminates"),
-                        "detail": format!("a single call into the system under test did not return within {limit} s of wall time: it loops without yielding (scenario {scen}, index {idx})"),
+                        "detail": format!("a single call into the system under test did not return within {limit} s of wall time: it loops without yielding or blocks the executor thread (scenario {scen}, index {idx})"),
                         "tape": match tape { Some(t) => json!(t), None => Value::Null }, "trace": [],
                     });
                     let _ = std::fs::write(out.with_extension("hang"), serde_json::to_string(&v).unwrap());
